@@ -141,6 +141,17 @@ class XmlTableGen:
                         v += rng.choice([vt, vt, vt, vt.upper(), vt.lower(), vt.swapcase(), vt.capitalize()])
                     elif k < 0.8:
                         v += rng.choice([b'abc', b'www.example.com/', b'1', b'x y'])
+                    if rng.random() < 0.15:
+                        # a value spliced from the start values of TWO rows of this attribute name (begins like one,
+                        # goes on like the other from that offset): the longest matching start value is the only one
+                        # that may be taken, and the rest must follow unchanged
+                        sib = [bytes.fromhex(x[1]) for x in attrs if x[0] == a[0] and x[1]]
+                        if len(sib) >= 2:
+                            A, B = rng.sample(sib, 2)
+                            if len(A) > len(B):
+                                A, B = B, A
+                            j = rng.choice([len(A), len(A), rng.randint(0, len(A))])
+                            v = A[:j] + B[j:] + rng.choice([b'', b'text', b'x/y', B[-2:]])
                     nm = bytes.fromhex(a[0])
                     if rng.random() < 0.1:
                         nm = rng.choice(lit_pool)
